@@ -174,8 +174,24 @@ def run(ctx):
             continue
         steps = []
         missing = None
+        inner = {}      # helper call -> [(helper fn, inner call)] for steps performed inside a private helper
         for pat in ('Memvid::rewrite_toc_footer', 'EmbeddedWal::record_checkpoint', 'persist_header', 'File::sync_all'):
             cs = fn.calls_to(pat)
+            if not cs:
+                # the step may sit in a private helper that performs it on every one of its Ok paths (`persist_header_and_sync()`)
+                cands = []
+                for c in fn.calls():
+                    h = F.fns.get(c.local_callee) if c.local_callee else None
+                    hc = h.calls_to(pat) if h is not None and not h.is_closure else []
+                    if c in steps and id(c) not in inner:
+                        continue        # a direct earlier step (rewrite_toc_footer syncs internally: that is not the publishing sync)
+                    if hc and all(ex.get('call') in hc or any(lib.call_success_dominates(h, x, ex['bb']) for x in hc) for ex in h.ok_exits()):
+                        if not steps or c is steps[-1] or lib.call_success_dominates(fn, steps[-1], c.bb):
+                            cands.append((c, h, hc[-1]))
+                if cands:
+                    c, h, x = cands[-1]
+                    cs = [c]
+                    inner.setdefault(id(c), []).append((h, x))
             if not cs:
                 missing = pat
                 break
@@ -184,14 +200,19 @@ def run(ctx):
         if missing:
             ctx.bad('ORDER-C03d', fn, 'commit path lacks %s' % missing, detail='missing:' + missing)
             continue
-        ok, why = lib.ordered_on_all_ok_paths(fn, steps)
+        outer = [st for i, st in enumerate(steps) if i == 0 or st is not steps[i - 1]]
+        ok, why = lib.ordered_on_all_ok_paths(fn, outer)
+        for lst in inner.values():
+            if ok and len(lst) > 1:
+                ctx.touch(lst[0][0], len(lst[0][0].blocks))
+                ok, why = lib.ordered_on_all_ok_paths(lst[0][0], [x for _, x in lst])
         if ok:
             ctx.ok('ORDER-C03d', fn, 'rewrite_toc_footer -> record_checkpoint -> persist_header -> sync_all on every Ok path', line=steps[0].line)
         else:
             ctx.bad('ORDER-C03d', fn, 'publication order broken: ' + why, detail='publish-order')
         # no other persist_header before the TOC is durable
         first_toc = fn.calls_to('Memvid::rewrite_toc_footer')[0]
-        for ph in fn.calls_to('persist_header'):
+        for ph in fn.calls_to('persist_header') + [st for st in steps if id(st) in inner]:
             if not lib.call_success_dominates(fn, first_toc, ph.bb):
                 ctx.bad('ORDER-C03d', fn, 'header is persisted before the TOC/footer it points to is written and synced', line=ph.line, detail='header-before-toc')
 
